@@ -303,7 +303,14 @@ struct parquet_file_metadata {
     /* Field 8: encryption_algorithm (we skip for now) */
 
     /* Field 9: footer_signing_key_metadata (we skip for now) */
+
+    /* Bit n set: field n (1..6) was present with its declared wire type.
+     * version, schema, num_rows and row_groups are required by the format;
+     * the reader refuses a footer that lacks one (PARQUET_FMD_REQUIRED). */
+    uint32_t fields_present;
 };
+
+#define PARQUET_FMD_REQUIRED ((1u << 1) | (1u << 2) | (1u << 3) | (1u << 4))
 
 /* ============================================================================
  * Page Headers
